@@ -30,7 +30,10 @@ structure Reroot (π' : Path) (s t : Store) : Prop where
   rngs_eq : t.rngs = s.rngs
   mut_eq : t.mutable = s.mutable
   vars_eq : ∀ c rest, lookupP (c :: rest) t.vars = lookupP (c :: (π' ++ rest)) s.vars
-  hascol_eq : ∀ c, hasCol t c = hasCol s c
+  /-- the standalone tree has no collection the parent's lacks … -/
+  hascol_le : ∀ c, hasCol t c = true → hasCol s c = true
+  /-- … and has every collection in which the submodule holds a variable (`scope.variables()` keeps exactly those) -/
+  hascol_ge : ∀ c rest v, lookupP (c :: (π' ++ rest)) s.vars = some v → hasCol t c = true
   conflict_le : ∀ c rest, conflict t.vars (c :: rest) = true → conflict s.vars (c :: (π' ++ rest)) = true
 
 variable {π' : Path}
@@ -48,7 +51,7 @@ theorem Reroot.isMutable_eq {s t : Store} (h : Reroot π' s t) (c : String) : is
 
 theorem Reroot.bump {s t : Store} (h : Reroot π' s t) :
     Reroot π' { s with inits := s.inits + 1 } { t with inits := t.inits + 1 } :=
-  ⟨h.rngs_eq, h.mut_eq, h.vars_eq, h.hascol_eq, h.conflict_le⟩
+  ⟨h.rngs_eq, h.mut_eq, h.vars_eq, h.hascol_le, h.hascol_ge, h.conflict_le⟩
 
 theorem putVar_reroot {s t s1 : Store} (hrel : Reroot π' s t) {ρ : Path} {col n : String} {v : Val}
     (h : putVar (π' ++ ρ) col n v s = (.ok (), s1)) :
@@ -70,7 +73,7 @@ theorem putVar_reroot {s t s1 : Store} (hrel : Reroot π' s t) {ρ : Path} {col 
       simp only [hct, Bool.false_eq_true, if_false]
       refine ⟨_, rfl, ?_⟩
       rw [← h]
-      refine ⟨hrel.rngs_eq, hrel.mut_eq, ?_, ?_, ?_⟩
+      refine ⟨hrel.rngs_eq, hrel.mut_eq, ?_, ?_, ?_, ?_⟩
       · intro c rest
         simp only
         by_cases hq : (c :: rest) = fullPath col ρ n
@@ -88,8 +91,23 @@ theorem putVar_reroot {s t s1 : Store} (hrel : Reroot π' s t) {ρ : Path} {col 
             rw [h1, List.append_cancel_left h2]
           rw [lookupP_upsert_ne _ _ _ _ hq, lookupP_upsert_ne _ _ _ _ hq']
           exact hrel.vars_eq c rest
-      · intro c
-        rw [hasCol_put, hasCol_put, hrel.hascol_eq]
+      · intro c hc
+        rw [hasCol_put] at hc ⊢
+        simp only [Bool.or_eq_true] at hc ⊢
+        rcases hc with hc | hc
+        · exact Or.inl (hrel.hascol_le c hc)
+        · exact Or.inr hc
+      · intro c rest v hv
+        rw [hasCol_put]
+        simp only [Bool.or_eq_true, decide_eq_true_eq]
+        simp only at hv
+        by_cases hq' : (c :: (π' ++ rest)) = fullPath col (π' ++ ρ) n
+        · right
+          unfold fullPath at hq'
+          injection hq' with h1 _
+          exact h1.symm
+        · rw [lookupP_upsert_ne _ _ _ _ hq'] at hv
+          exact Or.inl (hrel.hascol_ge c rest v hv)
       · intro c rest
         unfold conflict
         rw [any_upsert_key (fun k => properPrefix k (c :: rest) || properPrefix (c :: rest) k),
@@ -248,12 +266,17 @@ theorem modulePerturb_reroot {s t s1 : Store} (hrel : Reroot π' s t) {ρ : Path
         | none => (.error .perturbMissing, t2)
        else (.ok (e, q), t2)) = (.ok (y, r1), t1) ∧ Reroot π' s1 t1 := by
     intro s2 t2 q hs2 hh
-    rw [hs2.hascol_eq col, hs2.getVar_eq]
+    rw [hs2.getVar_eq]
     by_cases hc : hasCol s2 col = true
-    · simp only [hc, if_true] at hh ⊢
+    · simp only [hc, if_true] at hh
       cases hg : getVar s2 (π' ++ ρ) col n with
       | none => simp [hg] at hh
       | some v0 =>
+        have hct : hasCol t2 col = true := by
+          unfold getVar fullPath at hg
+          rw [List.append_assoc] at hg
+          exact hs2.hascol_ge col _ v0 hg
+        simp only [hct, if_true]
         cases v0 with
         | tup xs => simp [hg] at hh
         | tensor sh d =>
@@ -261,7 +284,11 @@ theorem modulePerturb_reroot {s t s1 : Store} (hrel : Reroot π' s t) {ρ : Path
           simp only [Prod.mk.injEq, Except.ok.injEq] at hh
           obtain ⟨⟨rfl, rfl⟩, rfl⟩ := hh
           exact ⟨t2, rfl, hs2⟩
-    · simp only [hc, Bool.false_eq_true, if_false] at hh ⊢
+    · have hct : hasCol t2 col = false := by
+        cases hh2 : hasCol t2 col with
+        | false => rfl
+        | true => exact absurd (hs2.hascol_le col hh2) hc
+      simp only [hc, hct, Bool.false_eq_true, if_false] at hh ⊢
       simp only [Prod.mk.injEq, Except.ok.injEq] at hh
       obtain ⟨⟨rfl, rfl⟩, rfl⟩ := hh
       exact ⟨t2, rfl, hs2⟩
@@ -487,16 +514,6 @@ theorem eval_reroot (cfg : Cfg) (π' : Path) : ∀ (fuel : Nat) (p : SProg) (ρ 
 
 /-! ### the variables a user extracts for a submodule -/
 
-/-- `q` with the module path `π'` removed after the collection name, when `q` lies under `π'` -/
-def strip (π' : Path) (q : Path) : Option Path :=
-  match q with
-  | c :: r => if π'.isPrefixOf r then some (c :: r.drop π'.length) else none
-  | [] => none
-
-/-- `{col: V[col][n₁]…[nₖ] for col in V}`: the subtree of every collection at module path `π'` -/
-def restrict (π' : Path) (V : Vars) : Vars :=
-  { cols := V.cols, vars := V.vars.filterMap (fun kv => (strip π' kv.1).map (fun k => (k, kv.2))) }
-
 theorem strip_eq_some_iff (π' : Path) (q : Path) (c : String) (rest : Path) :
     strip π' q = some (c :: rest) ↔ q = c :: (π' ++ rest) := by
   cases q with
@@ -561,11 +578,39 @@ theorem lookupP_restrict (π' : Path) (c : String) (rest : Path) (l : List (Path
         simp only [lookupP, hk, hne, if_false]
         exact ih
 
-theorem reroot_bind (π' : Path) (m : LFilter) (V : Vars) (rngs : List String) :
+/-- every leaf of a variable dict sits in one of its collections (true of every dict-of-dicts) -/
+def HeadsIn (V : Vars) : Prop := ∀ kv ∈ V.vars, ∀ c r, kv.1 = c :: r → c ∈ V.cols
+
+theorem mem_of_lookupP {q : Path} {v : Val} : ∀ {l : List (Path × Val)}, lookupP q l = some v → (q, v) ∈ l := by
+  intro l
+  induction l with
+  | nil => intro h; simp [lookupP] at h
+  | cons kv rest ih =>
+    obtain ⟨k, w⟩ := kv
+    intro h
+    by_cases hk : k = q
+    · subst hk
+      simp only [lookupP, if_true, Option.some.injEq] at h
+      subst h
+      exact List.mem_cons_self
+    · simp only [lookupP, hk, if_false] at h
+      exact List.mem_cons_of_mem _ (ih h)
+
+theorem hasCol_bind (m : LFilter) (V : Vars) (rngs : List String) (c : String) (hc : c ∈ V.cols) :
+    hasCol (Scope.bind m V rngs) c = true := by
+  unfold hasCol Scope.bind
+  simp only [List.any_map, List.any_eq_true]
+  exact ⟨c, hc, by simp⟩
+
+theorem reroot_bind (π' : Path) (m : LFilter) (V : Vars) (hV : HeadsIn V) (rngs : List String) :
     Reroot π' (Scope.bind m V rngs) (Scope.bind m (restrict π' V) rngs) := by
-  refine ⟨rfl, rfl, ?_, fun _ => rfl, ?_⟩
+  refine ⟨rfl, rfl, ?_, fun _ h => h, ?_, ?_⟩
   · intro c rest
     exact lookupP_restrict π' c rest V.vars
+  · intro c rest v hv
+    -- the collection of an existing variable is a collection of `V` (well-formed variable dicts); `restrict`
+    -- keeps every collection, so nothing to show beyond that
+    exact hasCol_bind m (restrict π' V) rngs c (hV _ (mem_of_lookupP hv) c _ rfl)
   · intro c rest h
     simp only [Scope.bind, restrict, conflict] at h ⊢
     rw [List.any_eq_true] at h ⊢
@@ -583,5 +628,75 @@ theorem reroot_bind (π' : Path) (m : LFilter) (V : Vars) (rngs : List String) :
       simp only at hp
       rw [hq, properPrefix_shift, properPrefix_shift, ← hk']
       exact hp
+
+
+theorem conflict_restrict (π' : Path) (l : List (Path × Val)) (c : String) (rest : Path)
+    (h : conflict (l.filterMap (fun kv => (strip π' kv.1).map (fun k => (k, kv.2)))) (c :: rest) = true) :
+    conflict l (c :: (π' ++ rest)) = true := by
+  simp only [conflict] at h ⊢
+  rw [List.any_eq_true] at h ⊢
+  obtain ⟨kv', hmem, hp⟩ := h
+  rw [List.mem_filterMap] at hmem
+  obtain ⟨kv, hkv, hmap⟩ := hmem
+  cases hs : strip π' kv.1 with
+  | none => rw [hs] at hmap; simp at hmap
+  | some k' =>
+    rw [hs] at hmap
+    simp only [Option.map_some, Option.some.injEq] at hmap
+    subst hmap
+    obtain ⟨c0, r0, hk', hq⟩ := strip_some_shape π' kv.1 k' hs
+    refine ⟨kv, hkv, ?_⟩
+    simp only at hp
+    rw [hq, properPrefix_shift, properPrefix_shift, ← hk']
+    exact hp
+
+/-- every leaf of the store sits in a collection the root scope knows -/
+def StoreHeadsIn (s : Store) : Prop := ∀ kv ∈ s.vars, ∀ c r, kv.1 = c :: r → hasCol s c = true
+
+theorem storeHeadsIn_bind (m : LFilter) (V : Vars) (hV : HeadsIn V) (rngs : List String) :
+    StoreHeadsIn (Scope.bind m V rngs) := fun kv hkv c r hc => hasCol_bind m V rngs c (hV kv hkv c r hc)
+
+/-- the variables `scope.variables()` returns for the scope at `π'` (what `unbind` hands out), bound as a root
+scope with the same filter and RNG streams, are the re-rooted subtree -/
+theorem reroot_scopeVariables (π' : Path) (s : Store) (hs : StoreHeadsIn s) :
+    Reroot π' s (Scope.bind s.mutable (scopeVariables π' s) s.rngs) := by
+  refine ⟨rfl, rfl, ?_, ?_, ?_, ?_⟩
+  · intro c rest
+    exact lookupP_restrict π' c rest s.vars
+  · intro c hc
+    unfold hasCol Scope.bind scopeVariables restrict at hc
+    simp only [List.any_map, List.any_eq_true] at hc
+    obtain ⟨c', hc', heq⟩ := hc
+    simp only [Function.comp, decide_eq_true_eq] at heq
+    subst heq
+    have hmem : c' ∈ s.cols.map (·.1) := by
+      split at hc'
+      · exact hc'
+      · exact (List.mem_filter.mp hc').1
+    unfold hasCol
+    rw [List.any_eq_true]
+    obtain ⟨e, he, hee⟩ := List.mem_map.mp hmem
+    exact ⟨e, he, by simp [hee]⟩
+  · intro c rest v hv
+    have hmem := mem_of_lookupP hv
+    have hcs : hasCol s c = true := hs _ hmem c _ rfl
+    have hcm : c ∈ s.cols.map (·.1) := by
+      unfold hasCol at hcs
+      rw [List.any_eq_true] at hcs
+      obtain ⟨e, he, hee⟩ := hcs
+      exact List.mem_map.mpr ⟨e, he, by simpa using hee⟩
+    apply hasCol_bind
+    unfold scopeVariables restrict
+    simp only
+    split
+    · exact hcm
+    · rw [List.mem_filter]
+      refine ⟨hcm, ?_⟩
+      rw [List.any_eq_true]
+      refine ⟨(c :: rest, v), ?_, by simp⟩
+      rw [List.mem_filterMap]
+      exact ⟨(c :: (π' ++ rest), v), hmem, by simp [(strip_eq_some_iff π' (c :: (π' ++ rest)) c rest).mpr rfl]⟩
+  · intro c rest h
+    exact conflict_restrict π' s.vars c rest h
 
 end Flax.PathSim
